@@ -30,6 +30,7 @@ type Obligation struct {
 	replayed   bool
 	replayNote string
 	replayData map[string]interface{}
+	coverPaths [][]*Term // kind "cover": passes when one of these path conditions is not refuted
 	// for the replay harness: the function under contract, its symbolic arguments and its pre-state
 	fnSSA *ssa.Function
 	pre   *State
